@@ -190,10 +190,14 @@ def kwargs_per_scheme(ctx: Ctx, values: list[str]) -> tuple[Func, dict[str, dict
     """For each scheme value: {kwarg name -> source expression text} that add_schemes passes, or None if undecidable."""
     add = ctx.sm.func("cli/utils.py", "add_schemes")
     loops = [n for n in ast.walk(add.node) if isinstance(n, ast.For)]
-    if not loops or not isinstance(loops[0].target, ast.Name):
+    if not loops:
         raise AnalysisError("add_schemes: loop over the schemes not found")
     loop = loops[0]
-    svar = loop.target.id
+    cands = [x.id for x in ast.walk(loop.target) if isinstance(x, ast.Name)]
+    body_txt = " ".join(norm(st) for st in loop.body)
+    svar = next((c for c in cands if f"{c}.value" in body_txt), cands[0] if cands else None)
+    if svar is None:
+        raise AnalysisError("add_schemes: loop variable over the schemes not found")
     out: dict[str, dict | None] = {}
     for v in values:
         kw: dict | None = {}
@@ -237,7 +241,7 @@ def kwargs_per_scheme(ctx: Ctx, values: list[str]) -> tuple[Func, dict[str, dict
 STANDARD_BUILDER_PARAMS = ("ode", "dt", "name", "printer", "remove_unused")
 
 
-def check_scheme_kwargs(ctx: Ctx, rule: str, option: str):
+def check_scheme_kwargs(ctx: Ctx, rule: str, option: str, only_builders=None):
     """For every Scheme enum value: add_schemes passes `option` (bound to the option variable) iff the builder takes it."""
     models = scheme_models(ctx)
     gs, table = alias_table(ctx)
@@ -246,6 +250,8 @@ def check_scheme_kwargs(ctx: Ctx, rule: str, option: str):
     for v in sorted(enum.values()):
         builder = table.get(v)
         if builder not in models:
+            continue
+        if only_builders is not None and builder not in only_builders:
             continue
         takes = option in models[builder].func.params
         kw = per[v]
